@@ -181,6 +181,7 @@ pub fn run(env: &Env) {
         let all = edits_for(env, &base, r.l, r.flips);
         let edits: Vec<Ed<Ps>> = if r.flips.1 > 0 { all.into_iter().filter(|e| e.class.starts_with("proofflip")).collect() } else { all };
         let b = if r.flips.1 > 0 { 1 } else { bound };
+        let base_ref_ok = std::cell::Cell::new(true);
         let (_s, tr) = explore(&base, &edits, b, &|s| s.key(), &mut |v| {
             env.ctx.state(&[r.id.as_bytes(), &v.state.key()]);
             let got = v.state.verify_impl();
@@ -199,13 +200,17 @@ pub fn run(env: &Env) {
             // reference verdict: always in thorough; in quick skipped for plain bit flips that the implementation rejected
             let skip_ref = !env.thorough() && cls.starts_with("proofflip") && !got.is_ok();
             let rf = if skip_ref { Err("skipped".to_string()) } else { v.state.verify_ref() };
-            if rf.is_ok() != sem { env.machinery(&format!("C04 reference verdict {:?} != semantic {} at {} [{}]", rf, sem, r.id, v.path.join("; "))); }
+            if v.path.is_empty() && rf.is_err() {
+                base_ref_ok.set(false);
+                env.ctx.violation("C04:base-artefact:reference-rejects", &format!("the implementation's honest proof is rejected by the reference: {:?}", rf), env.case(&r.id, det0.clone()));
+            } else if base_ref_ok.get() && !skip_ref && rf.is_ok() != sem { env.machinery(&format!("C04 reference verdict {:?} != semantic {} at {} [{}]", rf, sem, r.id, v.path.join("; "))); }
             env.ctx.class(&format!("{}:{}", if sem { "accept" } else { "reject" }, v.classes.first().copied().unwrap_or("honest")));
             env.ctx.trace();
             if v.path.len() == 1 && v.path[0].starts_with("add disclosure") { env.ctx.sample(json!({"root": r.id, "edits": v.path, "verdict": got.kind()})); }
         });
         env.ctx.add_extra("edit_transitions", tr);
     });
+    crate::hist::explore_families(env, &['P'], "proof verification histories");
     forgery_family(env);
 }
 
